@@ -23,6 +23,7 @@ import (
 	"runtime"
 	"strconv"
 	"strings"
+	"sync"
 	"sync/atomic"
 	"testing"
 	"time"
@@ -122,6 +123,7 @@ type vRecv struct {
 }
 
 type vSinks struct {
+	mu   sync.Mutex
 	got  []vRecv
 	next error // what the next consumer answers
 }
@@ -130,6 +132,8 @@ func (s *vSinks) record(signal int, id int64, b []byte, err error) error {
 	if err != nil {
 		panic(err)
 	}
+	s.mu.Lock()
+	defer s.mu.Unlock()
 	s.got = append(s.got, vRecv{signal, id, b})
 	return s.next
 }
@@ -147,7 +151,8 @@ type vProcs struct {
 	r1, r2 uint64
 	reads  int
 	gcs    int
-	cnt    atomic.Int64 // number of readMemStats calls (life cases; concurrent)
+	cnt    atomic.Int64  // number of readMemStats calls (life cases; concurrent)
+	alloc  atomic.Uint64 // reading returned in concurrent mode
 	conc   bool
 }
 
@@ -165,7 +170,7 @@ func vNewProcs(cfg *Config, totalOK bool, total uint64, concurrent bool) *vProcs
 	memorylimiter.ReadMemStatsFn = func(ms *runtime.MemStats) {
 		if p.conc {
 			p.cnt.Add(1)
-			ms.Alloc = 0
+			ms.Alloc = p.alloc.Load()
 			return
 		}
 		if p.reads == 0 {
@@ -338,7 +343,7 @@ func vGateCases(out *vOut, r *vRand, n int) {
 				}
 				expectRefuse = final >= soft
 				if noWrap && refuse != expectRefuse {
-					out.Oracle("refuse-iff-soft", fmt.Sprintf("CGate %s (Some %s) %s %s", vCfg(cfg), vU(total), vList(ops), vList(obs)),
+					out.Oracle("refuse-iff-soft", fmt.Sprintf("(CGate %s (Some %s) %s %s)", vCfg(cfg), vU(total), vList(ops), vList(obs)),
 						fmt.Sprintf("limit=%d spike=%d r1=%d r2=%d gcs=%d refuse=%v", limit, spike, p.r1, p.r2, p.gcs, refuse))
 				}
 				out.Stat(fmt.Sprintf("gate.check_refuse_%v", refuse), 1)
@@ -369,7 +374,7 @@ func vGateCases(out *vOut, r *vRand, n int) {
 			out.Stat(fmt.Sprintf("gate.consume_signal_%d", signal), 1)
 			out.Stat("gate.consume_result_"+eclass, 1)
 			// ---- direct oracle
-			cterm := fmt.Sprintf("CGate %s (Some %s) %s %s", vCfg(cfg), vU(total), vList(ops), vList(obs))
+			cterm := fmt.Sprintf("(CGate %s (Some %s) %s %s)", vCfg(cfg), vU(total), vList(ops), vList(obs))
 			detail := fmt.Sprintf("signal=%d id=%d refusing=%v err=%v forwarded=%d", signal, id, expectRefuse, err, len(got))
 			if expectRefuse {
 				if len(got) != 0 {
@@ -391,17 +396,22 @@ func vGateCases(out *vOut, r *vRand, n int) {
 				}
 			}
 		}
-		out.Case(true, fmt.Sprintf("CGate %s (Some %s) %s %s", vCfg(cfg), vU(total), vList(ops), vList(obs)))
+		out.Case(true, fmt.Sprintf("(CGate %s (Some %s) %s %s)", vCfg(cfg), vU(total), vList(ops), vList(obs)))
 		out.Stat("gate.histories", 1)
 	}
 }
 
 // ---- Start/Shutdown over the processors sharing the limiter ----------------------------------------
-func vChecking(cnt *atomic.Int64, expectHint bool) bool {
+func vChecking(cnt *atomic.Int64, expectHint bool, afterRestart ...bool) bool {
 	c0 := cnt.Load()
 	window := 15 * time.Millisecond
 	if expectHint {
 		window = 5 * time.Second
+		if len(afterRestart) > 0 && afterRestart[0] {
+			// regression region of the repaired defect C18-RESTART: still >1000 ticker periods, but a
+			// tree that reverts the fix does not cost 5 s per operation
+			window = 1500 * time.Millisecond
+		}
 	}
 	dl := time.Now().Add(window)
 	for time.Now().Before(dl) {
@@ -425,17 +435,10 @@ func vProcLifeCases(out *vOut, r *vRand, n int) {
 		users, restarts := 0, 0
 		everStopped := false
 		nops := 2 + r.Intn(9)
-		keep := r.Intn(100) < 85 // most scripts avoid the restart region (known finding C18-RESTART)
 		var ops, obs []string
 		for k := 0; k < nops; k++ {
 			which := r.Intn(4)
 			start := r.Intn(100) < 55
-			if keep && !start && users == 1 && k < nops-1 {
-				start = true
-			}
-			if keep && start && users == 0 && everStopped {
-				start = false
-			}
 			var e error
 			if start {
 				if users == 0 && everStopped {
@@ -469,10 +472,10 @@ func vProcLifeCases(out *vOut, r *vRand, n int) {
 					gor = true
 				}
 			}
-			checking := vChecking(&p.cnt, users > 0 && restarts == 0)
+			checking := vChecking(&p.cnt, users > 0, restarts > 0)
 			ops = append(ops, vBool(start))
 			obs = append(obs, fmt.Sprintf("(%s, %s, %s, %s)", vBool(e != nil), vZ(rc), vBool(gor), vBool(checking)))
-			term := fmt.Sprintf("CLife %s %s", vList(ops), vList(obs))
+			term := fmt.Sprintf("(CLife %s %s)", vList(ops), vList(obs))
 			switch {
 			case users == 0 && checking:
 				out.Oracle("checker-runs-without-users", term, fmt.Sprintf("users=%d restarts=%d", users, restarts))
@@ -480,20 +483,226 @@ func vProcLifeCases(out *vOut, r *vRand, n int) {
 				out.Oracle("checker-stopped-with-users", term, fmt.Sprintf("users=%d restarts=%d", users, restarts))
 			case users > 0 && !checking:
 				out.Oracle("checker-dead-after-restart", term, fmt.Sprintf("users=%d restarts=%d checking=0", users, restarts))
-				out.Stat("proclife.known_region_restart_ops", 1)
+				out.Stat("proclife.restart_regression_failures", 1)
 			}
 			if int(rc) != users {
 				out.Oracle("refcount", term, fmt.Sprintf("users=%d refCounter=%d (processors must share one limiter)", users, rc))
 			}
 		}
-		for p.ml.Shutdown(context.Background()) == nil {
+		for k := 0; k < 64 && p.ml.Shutdown(context.Background()) == nil; k++ {
 		}
 		p.stopTicker()
-		out.Case(users > 0 || everStopped, fmt.Sprintf("CLife %s %s", vList(ops), vList(obs)))
+		out.Case(users > 0 || everStopped, fmt.Sprintf("(CLife %s %s)", vList(ops), vList(obs)))
 		out.Stat("proclife.sequences", 1)
 		if restarts > 0 {
 			out.Stat("proclife.sequences_with_restart", 1)
 		}
+	}
+}
+
+// ---- factory.getMemoryLimiter: one limiter per config OBJECT ----------------------------------------
+//   CShare calls obs    calls = (config object index, limiter constructible at this call),
+//                       obs = identity (first-seen index) of the limiter the created processor uses
+func vShareCases(out *vOut, r *vRand, n int) {
+	ctx := context.Background()
+	set := processortest.NewNopSettings(metadata.Type)
+	savedGet := memorylimiter.GetMemoryFn
+	defer func() { memorylimiter.GetMemoryFn = savedGet }()
+	for i := 0; i < n; i++ {
+		f := &factory{memoryLimiters: map[component.Config]*memoryLimiterProcessor{}}
+		ncfg := 1 + r.Intn(4)
+		cfgs := make([]*Config, ncfg)
+		for k := range cfgs {
+			// equal CONTENT on purpose: sharing is by object identity, not by value
+			cfgs[k] = &Config{CheckInterval: time.Hour, MemoryLimitMiB: 100}
+			if r.Intn(3) == 0 { // percentage mode: construction needs the total memory
+				cfgs[k] = &Config{CheckInterval: time.Hour, MemoryLimitPercentage: 50}
+			}
+		}
+		seen := map[*memoryLimiterProcessor]int{}
+		byCfg := map[int]*memoryLimiterProcessor{}
+		ncalls := 2 + r.Intn(9)
+		var calls, obs []string
+		for c := 0; c < ncalls; c++ {
+			k := r.Intn(ncfg)
+			memAvail := r.Intn(100) < 75
+			memorylimiter.GetMemoryFn = func() (uint64, error) {
+				if !memAvail {
+					return 0, errors.New("verif: no total memory")
+				}
+				return 1 << 32, nil
+			}
+			ok := memAvail || cfgs[k].MemoryLimitMiB != 0
+			var err error
+			switch r.Intn(4) {
+			case 0:
+				st, _ := consumer.NewTraces(func(context.Context, ptrace.Traces) error { return nil })
+				_, err = f.createTraces(ctx, set, cfgs[k], st)
+			case 1:
+				sm, _ := consumer.NewMetrics(func(context.Context, pmetric.Metrics) error { return nil })
+				_, err = f.createMetrics(ctx, set, cfgs[k], sm)
+			case 2:
+				sl, _ := consumer.NewLogs(func(context.Context, plog.Logs) error { return nil })
+				_, err = f.createLogs(ctx, set, cfgs[k], sl)
+			default:
+				sp, _ := xconsumer.NewProfiles(func(context.Context, pprofile.Profiles) error { return nil })
+				_, err = f.createProfiles(ctx, set, cfgs[k], sp)
+			}
+			calls = append(calls, vPair(strconv.Itoa(k), vBool(ok)))
+			if err != nil {
+				obs = append(obs, "None")
+				out.Stat("share.create_failed", 1)
+				if _, cached := f.memoryLimiters[cfgs[k]]; cached || ok {
+					out.Oracle("limiter-sharing", vList(calls), fmt.Sprintf("create failed: cached=%v constructible=%v", cached, ok))
+				}
+				continue
+			}
+			mlp := f.memoryLimiters[cfgs[k]]
+			if _, have := seen[mlp]; !have {
+				seen[mlp] = len(seen)
+				out.Stat("share.limiter_created", 1)
+			} else {
+				out.Stat("share.limiter_reused", 1)
+			}
+			obs = append(obs, fmt.Sprintf("(Some %d)", seen[mlp]))
+			// direct oracle: same config object <=> same limiter
+			if prev, have := byCfg[k]; have && prev != mlp {
+				out.Oracle("limiter-sharing", vList(calls), fmt.Sprintf("config object %d got a second limiter", k))
+			}
+			for k2, other := range byCfg {
+				if k2 != k && other == mlp {
+					out.Oracle("limiter-sharing", vList(calls), fmt.Sprintf("config objects %d and %d share a limiter", k, k2))
+				}
+			}
+			byCfg[k] = mlp
+		}
+		for _, mlp := range f.memoryLimiters {
+			vField(mlp.memlimiter, "ticker").Interface().(*time.Ticker).Stop()
+		}
+		out.Case(len(seen) > 0, fmt.Sprintf("(CShare %s %s)", vList(calls), vList(obs)))
+		out.Stat("share.sequences", 1)
+	}
+}
+
+// ---- concurrent: the ticker-driven checker flips the mode while eight producers consume ------------
+// Oracle only (the linearisation is not observable): every call is either refused with the
+// data-refused error and its payload never reaches a sink, or it returns nil and its payload is in
+// the addressed sink exactly once; nothing else ever reaches a sink.
+func vGateConcurrent(out *vOut, r *vRand) {
+	host := componenttest.NewNopHost()
+	for round := 0; round < vBudget(2, 5); round++ {
+		cfg := &Config{CheckInterval: time.Millisecond, MemoryLimitMiB: 100, MemorySpikeLimitMiB: 10}
+		p := vNewProcs(cfg, true, 1<<30, true)
+		limit, spike := vLimits(p.ml)
+		soft := limit - spike
+		for _, c := range p.comps {
+			if err := c.Start(context.Background(), host); err != nil {
+				out.Oracle("start-returns-error", "concurrent", err.Error())
+			}
+		}
+		stop := make(chan struct{})
+		var wg sync.WaitGroup
+		wg.Add(1)
+		go func() { // memory usage oscillates around the soft limit
+			defer wg.Done()
+			hi := false
+			for {
+				select {
+				case <-stop:
+					return
+				case <-time.After(3 * time.Millisecond):
+				}
+				hi = !hi
+				if hi {
+					p.alloc.Store(soft)
+				} else {
+					p.alloc.Store(soft - 1)
+				}
+			}
+		}()
+		type res struct {
+			signal  int
+			id      int64
+			refused bool
+			other   error
+		}
+		results := make([][]res, 8)
+		var nextID atomic.Int64
+		deadline := time.Now().Add(250 * time.Millisecond)
+		for w := 0; w < 8; w++ {
+			wg.Add(1)
+			go func(w int) {
+				defer wg.Done()
+				ctx := context.Background()
+				for time.Now().Before(deadline) {
+					id := nextID.Add(1)
+					signal := int(id) % 4
+					var err error
+					switch signal {
+					case 0:
+						err = p.tr.ConsumeTraces(ctx, vTraces(id, 1))
+					case 1:
+						err = p.me.ConsumeMetrics(ctx, vMetrics(id, 1))
+					case 2:
+						err = p.lo.ConsumeLogs(ctx, vLogs(id, 1))
+					default:
+						err = p.pr.ConsumeProfiles(ctx, vProfiles(id, 1))
+					}
+					rr := res{signal: signal, id: id}
+					if errors.Is(err, memorylimiter.ErrDataRefused) {
+						rr.refused = true
+					} else if err != nil {
+						rr.other = err
+					}
+					results[w] = append(results[w], rr)
+					time.Sleep(50 * time.Microsecond)
+				}
+			}(w)
+		}
+		time.Sleep(260 * time.Millisecond)
+		close(stop)
+		wg.Wait()
+		inSink := map[[2]int64]int{}
+		p.sinks.mu.Lock()
+		for _, g := range p.sinks.got {
+			inSink[[2]int64{int64(g.signal), g.id}]++
+		}
+		p.sinks.mu.Unlock()
+		nref, nacc := 0, 0
+		for _, rs := range results {
+			for _, x := range rs {
+				k := [2]int64{int64(x.signal), x.id}
+				switch {
+				case x.other != nil:
+					out.Oracle("downstream-result-not-returned", "concurrent", fmt.Sprintf("id=%d unexpected error %v", x.id, x.other))
+				case x.refused:
+					nref++
+					if inSink[k] != 0 {
+						out.Oracle("refused-but-forwarded", "concurrent", fmt.Sprintf("signal=%d id=%d", x.signal, x.id))
+					}
+				default:
+					nacc++
+					if inSink[k] != 1 {
+						out.Oracle("accepted-not-forwarded-once", "concurrent", fmt.Sprintf("signal=%d id=%d times=%d", x.signal, x.id, inSink[k]))
+					}
+				}
+				delete(inSink, k)
+			}
+		}
+		if len(inSink) != 0 {
+			out.Oracle("accepted-not-forwarded-once", "concurrent", fmt.Sprintf("%d payloads in the sinks that no call sent", len(inSink)))
+		}
+		out.Stat("gateconc.refused", nref)
+		out.Stat("gateconc.accepted", nacc)
+		for _, c := range p.comps {
+			if err := c.Shutdown(context.Background()); err != nil {
+				out.Oracle("shutdown-error-iff-not-started", "concurrent", err.Error())
+			}
+		}
+		if vChecking(&p.cnt, false) {
+			out.Oracle("checker-runs-without-users", "concurrent", "after the fourth processor's Shutdown")
+		}
+		p.stopTicker()
 	}
 }
 
@@ -502,4 +711,6 @@ func TestVerifC18Proc(t *testing.T) {
 	defer out.Close()
 	vGateCases(out, vNewRand(1811), vBudget(250, 20))
 	vProcLifeCases(out, vNewRand(1812), vBudget(40, 10))
+	vShareCases(out, vNewRand(1813), vBudget(150, 20))
+	vGateConcurrent(out, vNewRand(1814))
 }
